@@ -357,6 +357,12 @@ func (c *C15Inspect) Run() string {
 			msg = fmt.Sprintf("%s: FilledInplace(99): %s", desc, m)
 			return
 		}
+		if !b.Detached {
+			if diff := b.FrameDiff(b.ExpectRoot(want.E)); diff != "" {
+				msg = fmt.Sprintf("%s: FilledInplace(99) outside the tensor: %s", desc, diff)
+				return
+			}
+		}
 	})
 	if pan != "" {
 		return desc + " panicked: " + pan
@@ -403,16 +409,20 @@ type C15Carry struct {
 	Op    string  `json:"op"` // T | Transpose | Slice | Clone | Materialize | SafeT
 	Perm  []int   `json:"perm,omitempty"`
 	Specs []SpecJ `json:"specs,omitempty"`
+	DT    string  `json:"dt,omitempty"` // element type (default int16): the data movers differ by element size
 }
 
 func init() { register("C15.carry", func() Case { return &C15Carry{} }) }
 
 func (c *C15Carry) NTKey() string {
-	return fmt.Sprintf("%v|%v|%s|%v|%v", c.Shape, c.Mask, c.Op, c.Perm, c.Specs)
+	return fmt.Sprintf("%v|%v|%s|%v|%v|%s", c.Shape, c.Mask, c.Op, c.Perm, c.Specs, c.DT)
 }
 
 func (c *C15Carry) Run() string {
 	d := dtInt16
+	if c.DT != "" {
+		d = dtByName(c.DT)
+	}
 	arr := seqArr(d, c.Shape, 1)
 	b, err := Build(arr, Layout{Root: "rm"}, c.Mask)
 	if err != nil {
@@ -580,7 +590,7 @@ func TestC15(t *testing.T) {
 		op := op
 		cell(t, "C15", "C15.carry", "carry/"+op, nCases(100, 3000), func(rt *rapid.T) Case {
 			shape := genShapeMin2(rt, 1, 3, 4, "s")
-			c := &C15Carry{Shape: shape, Op: op, Mask: make([]bool, prod(shape))}
+			c := &C15Carry{Shape: shape, Op: op, Mask: make([]bool, prod(shape)), DT: rapid.SampledFrom([]string{"", "", "int8", "float32", "float64", "complex128", "string"}).Draw(rt, "dt")}
 			for i := range c.Mask {
 				c.Mask[i] = rapid.Bool().Draw(rt, "m")
 			}
